@@ -1,85 +1,626 @@
 package rules
 
 import (
+	"encoding/json"
 	"fmt"
+	"go/ast"
+	"go/token"
 	"os"
+	"os/exec"
+	"path/filepath"
+	"regexp"
+	"sort"
+	"strconv"
 	"strings"
+	"sync"
 
 	"kvcheck/engine"
 )
+
+// Testing the checker both ways (DESIGN.md 4.4).
+//
+// Positive controls (every run): variants of the CURRENT tree are derived by rewriting one guard
+// (a comparison in a function that carries an obligation of the property) to a constant, handed to
+// go/packages as an in-memory overlay, and analysed with the same rule. A control "fires" when the
+// variant is reported (an obligation that is discharged on the current tree is violated/undecided
+// on the variant). A run in which no derived variant can be made to fire is undecided: a rule that
+// cannot see a broken guard gives no verdict.
+//
+// Thorough tier: (a) every derived guard variant of the functions that carry obligations is analysed
+// in a short-lived child process (adequacy: killed/survived lists, not a verdict about kvass);
+// (b) the committed corpus of confirmed seeded changes for the property (/verif/seeded) is replayed
+// through overlays; each must be reported.
 
 // Control is a derived variant of the current tree that the rule must report.
 type Control struct {
 	Name   string
 	File   string // absolute file name
 	Src    []byte // replacement content
-	Expect string // prefix of an obligation key that must be violated/undecided in the variant
-	Skip   string // non-empty: control not applicable (reason)
+	Expect string // prefix of an obligation key that must be violated/undecided in the variant ("" = any)
+	Skip   string
+}
+
+type guardSite struct {
+	file       string
+	start, end int // byte offsets of the comparison expression / statement
+	line       int
+	fn         string
+	dist       int
+	kind       string // "guard": comparison forced to a constant; "stmt": call statement deleted
+}
+
+var posRe = regexp.MustCompile(`([A-Za-z0-9_./-]+\.go):(\d+)`)
+
+// guardSites lists comparison expressions inside the functions that carry obligations, nearest to
+// an obligation's construct line first.
+func guardSites(p *engine.Prog, rep *engine.Report) []guardSite {
+	type loc struct {
+		file string
+		line int
+	}
+	var locs []loc
+	for _, o := range rep.Obligations {
+		if o.Status != engine.Discharged || o.Trivial {
+			continue
+		}
+		for _, m := range posRe.FindAllStringSubmatch(o.Construct, -1) {
+			ln, _ := strconv.Atoi(m[2])
+			f := m[1]
+			if !filepath.IsAbs(f) {
+				f = filepath.Join(p.RepoDir, f)
+			}
+			locs = append(locs, loc{f, ln})
+		}
+	}
+	var out []guardSite
+	seen := map[string]bool{}
+	for _, pk := range p.Pkgs {
+		for i, file := range pk.Syntax {
+			name := pk.CompiledGoFiles[i]
+			var fl []loc
+			for _, l := range locs {
+				if l.file == name {
+					fl = append(fl, l)
+				}
+			}
+			if len(fl) == 0 {
+				continue
+			}
+			for _, d := range file.Decls {
+				fd, ok := d.(*ast.FuncDecl)
+				if !ok || fd.Body == nil {
+					continue
+				}
+				s, e := p.Fset.Position(fd.Pos()).Line, p.Fset.Position(fd.End()).Line
+				hit := false
+				for _, l := range fl {
+					if l.line >= s && l.line <= e {
+						hit = true
+					}
+				}
+				if !hit {
+					continue
+				}
+				ast.Inspect(fd.Body, func(n ast.Node) bool {
+					be, ok := n.(*ast.BinaryExpr)
+					if !ok {
+						return true
+					}
+					switch be.Op {
+					case token.EQL, token.NEQ, token.LSS, token.LEQ, token.GTR, token.GEQ:
+					default:
+						return true
+					}
+					ps, pe := p.Fset.Position(be.Pos()), p.Fset.Position(be.End())
+					k := fmt.Sprintf("%s:%d:%d", name, ps.Offset, pe.Offset)
+					if seen[k] {
+						return true
+					}
+					seen[k] = true
+					best := 1 << 30
+					for _, l := range fl {
+						dd := l.line - ps.Line
+						if dd < 0 {
+							dd = -dd
+						}
+						if dd < best {
+							best = dd
+						}
+					}
+					out = append(out, guardSite{file: name, start: ps.Offset, end: pe.Offset, line: ps.Line, fn: fd.Name.Name, dist: best, kind: "guard"})
+					return true
+				})
+				// stores through selectors / index expressions (a dropped field rewrite)
+				ast.Inspect(fd.Body, func(n ast.Node) bool {
+					as, ok := n.(*ast.AssignStmt)
+					if !ok || as.Tok != token.ASSIGN {
+						return true
+					}
+					for _, l := range as.Lhs {
+						switch l.(type) {
+						case *ast.SelectorExpr, *ast.IndexExpr:
+						default:
+							return true
+						}
+					}
+					ps, pe := p.Fset.Position(as.Pos()), p.Fset.Position(as.End())
+					k := fmt.Sprintf("%s:%d:%d", name, ps.Offset, pe.Offset)
+					if seen[k] {
+						return true
+					}
+					seen[k] = true
+					best := 1 << 30
+					for _, l := range fl {
+						dd := l.line - ps.Line
+						if dd < 0 {
+							dd = -dd
+						}
+						if dd < best {
+							best = dd
+						}
+					}
+					out = append(out, guardSite{file: name, start: ps.Offset, end: pe.Offset, line: ps.Line, fn: fd.Name.Name, dist: best, kind: "stmt"})
+					return true
+				})
+				// call statements (a dropped Lock, Close, Sort, store helper ...)
+				ast.Inspect(fd.Body, func(n ast.Node) bool {
+					es, ok := n.(*ast.ExprStmt)
+					if !ok {
+						return true
+					}
+					if _, ok := es.X.(*ast.CallExpr); !ok {
+						return true
+					}
+					ps, pe := p.Fset.Position(es.Pos()), p.Fset.Position(es.End())
+					k := fmt.Sprintf("%s:%d:%d", name, ps.Offset, pe.Offset)
+					if seen[k] {
+						return true
+					}
+					seen[k] = true
+					best := 1 << 30
+					for _, l := range fl {
+						dd := l.line - ps.Line
+						if dd < 0 {
+							dd = -dd
+						}
+						if dd < best {
+							best = dd
+						}
+					}
+					out = append(out, guardSite{file: name, start: ps.Offset, end: pe.Offset, line: ps.Line, fn: fd.Name.Name, dist: best, kind: "stmt"})
+					return true
+				})
+			}
+		}
+	}
+	sort.SliceStable(out, func(i, j int) bool {
+		if out[i].dist != out[j].dist {
+			return out[i].dist < out[j].dist
+		}
+		if out[i].file != out[j].file {
+			return out[i].file < out[j].file
+		}
+		return out[i].start < out[j].start
+	})
+	return out
+}
+
+func (g guardSite) variant(overlay map[string][]byte, force string) ([]byte, error) {
+	src, ok := overlay[g.file]
+	if !ok {
+		var err error
+		src, err = os.ReadFile(g.file)
+		if err != nil {
+			return nil, err
+		}
+	}
+	if g.end > len(src) {
+		return nil, fmt.Errorf("offset out of range")
+	}
+	var b []byte
+	b = append(b, src[:g.start]...)
+	if g.kind == "stmt" {
+		b = append(b, []byte("{}")...)
+	} else {
+		b = append(b, []byte("(("+string(src[g.start:g.end])+") "+force+")")...)
+	}
+	b = append(b, src[g.end:]...)
+	return b, nil
+}
+
+func violatedKeys(rep *engine.Report) map[string]bool {
+	m := map[string]bool{}
+	for _, o := range rep.Obligations {
+		if o.Status != engine.Discharged {
+			m[o.Key] = true
+		}
+	}
+	return m
+}
+
+// analyseVariant loads the tree with an overlay and returns the keys that are not discharged.
+func analyseVariant(ctx *Ctx, rule *Rule, ov map[string][]byte) (map[string]bool, error) {
+	whole := rule.Whole
+	vp, err := engine.Load(engine.LoadOptions{RepoDir: ctx.Repo, Overlay: ov, Whole: whole})
+	if err != nil {
+		return nil, err
+	}
+	vr := engine.NewReport(rule.ID, ctx.Tier)
+	func() {
+		defer func() {
+			if r := recover(); r != nil {
+				vr.Add("panic", "panic", "analyzer panic on variant", "", fmt.Sprint(r), engine.Undecided)
+			}
+		}()
+		rule.Run(vp, vr)
+	}()
+	// instance minimums and anchors count as reports too
+	count := map[string]int{}
+	for _, o := range vr.Obligations {
+		count[o.Rule]++
+	}
+	keys := violatedKeys(vr)
+	for ru, mn := range vr.MinCounts {
+		if count[ru] < mn {
+			keys[ru+":instances"] = true
+		}
+	}
+	for i, pr := range vp.Problems {
+		keys[fmt.Sprintf("%s/anchors:%d:%s", rule.ID, i, pr)] = true
+	}
+	return keys, nil
 }
 
 func runControls(ctx *Ctx, rule *Rule, p *engine.Prog, rep *engine.Report) {
-	base := map[string]bool{}
-	for _, o := range rep.Obligations {
-		if o.Status != engine.Discharged {
-			base[o.Key] = true
-		}
-	}
-	for _, c := range rule.Controls(p) {
-		res := engine.ControlResult{Name: c.Name, Expect: c.Expect}
-		if c.Skip != "" {
-			res.Skipped = c.Skip
-			rep.Controls = append(rep.Controls, res)
-			continue
-		}
-		already := false
-		for k := range base {
-			if strings.HasPrefix(k, c.Expect) {
-				already = true
-			}
-		}
-		if already {
-			res.Skipped = "instance already violated on the current tree"
-			rep.Controls = append(rep.Controls, res)
-			continue
-		}
-		ov := map[string][]byte{}
-		for k, v := range ctx.Overlay {
-			ov[k] = v
-		}
-		ov[c.File] = c.Src
-		vp, err := engine.Load(engine.LoadOptions{RepoDir: ctx.Repo, Overlay: ov, Whole: rule.Whole})
-		if err != nil {
-			res.Reported = []string{"variant does not load: " + err.Error()}
-			rep.Controls = append(rep.Controls, res)
-			continue
-		}
-		vr := engine.NewReport(rep.Property, ctx.Tier)
-		func() {
-			defer func() {
-				if r := recover(); r != nil {
-					vr.Add("panic", "panic", "analyzer panic on variant", "", fmt.Sprint(r), engine.Undecided)
-				}
-			}()
-			rule.Run(vp, vr)
-		}()
-		for _, o := range vr.Obligations {
-			if o.Status == engine.Discharged || base[o.Key] {
+	base := violatedKeys(rep)
+	// rule-specific controls first
+	if rule.Controls != nil {
+		for _, c := range rule.Controls(p) {
+			res := engine.ControlResult{Name: c.Name, Expect: c.Expect}
+			if c.Skip != "" {
+				res.Skipped = c.Skip
+				rep.Controls = append(rep.Controls, res)
 				continue
 			}
-			res.Reported = append(res.Reported, o.Key)
-			if strings.HasPrefix(o.Key, c.Expect) {
-				res.Fired = true
+			ov := map[string][]byte{}
+			for k, v := range ctx.Overlay {
+				ov[k] = v
 			}
+			ov[c.File] = c.Src
+			keys, err := analyseVariant(ctx, rule, ov)
+			if err != nil {
+				res.Skipped = "variant does not type-check: " + err.Error()
+				rep.Controls = append(rep.Controls, res)
+				continue
+			}
+			for k := range keys {
+				if !base[k] {
+					res.Reported = append(res.Reported, k)
+					if strings.HasPrefix(k, c.Expect) {
+						res.Fired = true
+					}
+				}
+			}
+			sort.Strings(res.Reported)
+			rep.Controls = append(rep.Controls, res)
 		}
-		rep.Controls = append(rep.Controls, res)
+	}
+	// generic guard controls
+	all := guardSites(p, rep)
+	var gs, ss []guardSite
+	for _, g := range all {
+		if g.kind == "stmt" {
+			ss = append(ss, g)
+		} else {
+			gs = append(gs, g)
+		}
+	}
+	var sites []guardSite
+	for i := 0; i < len(gs) || i < len(ss); i++ {
+		if i < len(gs) {
+			sites = append(sites, gs[i])
+		}
+		if i < len(ss) {
+			sites = append(sites, ss[i])
+		}
+	}
+	rep.Analysed["guard_sites"] = len(gs)
+	rep.Analysed["statement_sites"] = len(ss)
+	want, budget := 2, 8
+	fired, tried := 0, 0
+	for _, c := range rep.Controls {
+		if c.Fired {
+			fired++
+		}
+	}
+	for _, g := range sites {
+		if fired >= want || tried >= budget {
+			break
+		}
+		forces := []string{"|| true", "&& false"}
+		if g.kind == "stmt" {
+			forces = []string{"deleted"}
+		}
+		for _, force := range forces {
+			if fired >= want || tried >= budget {
+				break
+			}
+			src, err := g.variant(ctx.Overlay, force)
+			if err != nil {
+				continue
+			}
+			tried++
+			rel, _ := filepath.Rel(p.RepoDir, g.file)
+			res := engine.ControlResult{Name: fmt.Sprintf("guard at %s:%d in %s forced %s", rel, g.line, g.fn, force), Expect: rule.ID + "/"}
+			if g.kind == "stmt" {
+				res.Name = fmt.Sprintf("statement at %s:%d in %s deleted", rel, g.line, g.fn)
+			}
+			ov := map[string][]byte{}
+			for k, v := range ctx.Overlay {
+				ov[k] = v
+			}
+			ov[g.file] = src
+			keys, err := analyseVariant(ctx, rule, ov)
+			if err != nil {
+				res.Skipped = "variant does not type-check"
+				tried--
+				continue
+			}
+			for k := range keys {
+				if !base[k] {
+					res.Reported = append(res.Reported, k)
+					res.Fired = true
+				}
+			}
+			sort.Strings(res.Reported)
+			if res.Fired {
+				fired++
+				rep.Controls = append(rep.Controls, res)
+				break
+			}
+			res.Skipped = "survived: the rules of this property do not depend on this guard (not a verdict)"
+			rep.Controls = append(rep.Controls, res)
+		}
+	}
+	if fired == 0 && len(sites) > 0 {
+		rep.Controls = append(rep.Controls, engine.ControlResult{Name: "guard controls", Expect: rule.ID + "/", Fired: false,
+			Reported: []string{fmt.Sprintf("none of %d derived guard variants was reported", tried)}})
+	}
+	if ctx.Tier == "thorough" {
+		rep.Selftest = thoroughSelftest(ctx, rule, p, rep, sites, base)
 	}
 }
 
-// readFile reads a repository file through the overlay-free file system.
-func readFile(name string) []byte {
-	b, err := os.ReadFile(name)
-	if err != nil {
-		return nil
+// seededFor lists the committed seeded changes recorded for a property.
+var seededProp = map[string]string{"D1": "C05", "D2": "C04", "D4": "C07", "D5": "C07", "D6": "C09", "D7": "C13", "D10": "C17", "D11": "C20"}
+
+type childResult struct {
+	name   string
+	keys   []string
+	err    string
+	killed bool
+}
+
+func runChild(ctx *Ctx, prop string, ov map[string][]byte, scratch string, idx int) childResult {
+	var args []string
+	var pairs []string
+	for f, b := range ov {
+		tmp := filepath.Join(scratch, fmt.Sprintf("v%d_%s", idx, filepath.Base(f)))
+		if err := os.WriteFile(tmp, b, 0644); err != nil {
+			return childResult{err: err.Error()}
+		}
+		pairs = append(pairs, f+"="+tmp)
 	}
-	return b
+	self, _ := os.Executable()
+	args = append(args, "-prop", prop, "-tier", "quick", "-repo", ctx.Repo, "-verif", ctx.Verif, "-nocontrols", "-keys")
+	if len(pairs) > 0 {
+		args = append(args, "-overlay", strings.Join(pairs, ","))
+	}
+	out, err := exec.Command(self, args...).CombinedOutput()
+	res := childResult{}
+	for _, l := range strings.Split(string(out), "\n") {
+		if strings.HasPrefix(l, "KEY ") {
+			parts := strings.SplitN(l, " ", 3)
+			if len(parts) == 3 {
+				res.keys = append(res.keys, parts[2])
+			}
+		}
+		if strings.HasPrefix(l, "VIOLATION") {
+			res.keys = append(res.keys, l)
+		}
+	}
+	if err != nil && len(res.keys) == 0 {
+		res.err = strings.TrimSpace(string(out))
+	}
+	return res
+}
+
+func thoroughSelftest(ctx *Ctx, rule *Rule, p *engine.Prog, rep *engine.Report, sites []guardSite, base map[string]bool) map[string]interface{} {
+	scratch, err := os.MkdirTemp("", "kvcheck-variants-")
+	if err != nil {
+		return map[string]interface{}{"error": err.Error()}
+	}
+	defer os.RemoveAll(scratch)
+	type job struct {
+		name string
+		ov   map[string][]byte
+		kind string
+	}
+	var jobs []job
+	max := 80
+	for i, g := range sites {
+		if i >= max {
+			break
+		}
+		forces := []string{"|| true", "&& false"}
+		if g.kind == "stmt" {
+			forces = []string{"statement deleted"}
+		}
+		for _, force := range forces {
+			src, err := g.variant(ctx.Overlay, force)
+			if err != nil {
+				continue
+			}
+			rel, _ := filepath.Rel(p.RepoDir, g.file)
+			jobs = append(jobs, job{fmt.Sprintf("%s:%d (%s) %s", rel, g.line, g.fn, force), map[string][]byte{g.file: src}, "guard"})
+		}
+	}
+	// seeded corpus
+	seedDir := filepath.Join(ctx.Verif, "seeded")
+	ents, _ := os.ReadDir(seedDir)
+	var seedNotes []string
+	for _, e := range ents {
+		id := e.Name()
+		prop := seededProp[id]
+		if prop == "" && len(id) >= 3 && strings.HasPrefix(id, "C") {
+			prop = id[:3]
+		}
+		if prop != rule.ID {
+			continue
+		}
+		patch := filepath.Join(seedDir, id, "patch.diff")
+		if _, err := os.Stat(patch); err != nil {
+			continue
+		}
+		ov, err := overlayFromPatch(ctx.Repo, patch, scratch, id)
+		if err != nil {
+			seedNotes = append(seedNotes, id+": patch does not apply to the current tree ("+err.Error()+")")
+			continue
+		}
+		jobs = append(jobs, job{"seeded/" + id, ov, "seeded"})
+	}
+	results := make([]childResult, len(jobs))
+	sem := make(chan struct{}, 8)
+	var wg sync.WaitGroup
+	for i := range jobs {
+		wg.Add(1)
+		sem <- struct{}{}
+		go func(i int) {
+			defer wg.Done()
+			defer func() { <-sem }()
+			results[i] = runChild(ctx, rule.ID, jobs[i].ov, scratch, i)
+			results[i].name = jobs[i].name
+		}(i)
+	}
+	wg.Wait()
+	var killed, survived, broken, seedKilled, seedMissed []string
+	for i, res := range results {
+		newKeys := 0
+		for _, k := range res.keys {
+			if !base[k] {
+				newKeys++
+			}
+		}
+		switch {
+		case res.err != "" && jobs[i].kind == "guard":
+			broken = append(broken, res.name)
+		case jobs[i].kind == "guard" && newKeys > 0:
+			killed = append(killed, res.name)
+		case jobs[i].kind == "guard":
+			survived = append(survived, res.name)
+		case newKeys > 0:
+			seedKilled = append(seedKilled, fmt.Sprintf("%s (%d obligations)", res.name, newKeys))
+		default:
+			seedMissed = append(seedMissed, res.name)
+		}
+	}
+	st := map[string]interface{}{
+		"guard_variants":            len(killed) + len(survived),
+		"guard_variants_killed":     len(killed),
+		"guard_variants_survived":   survived,
+		"guard_variants_discarded":  len(broken),
+		"seeded_changes_reported":   seedKilled,
+		"seeded_changes_missed":     seedMissed,
+		"seeded_notes":              seedNotes,
+		"note":                      "survivors are guards the rules of this property do not depend on (or a weakness of the checker); they are not a verdict about kvass",
+	}
+	// a seeded change of this property that is no longer reported is a regression of the checker
+	for _, m := range seedMissed {
+		rep.Controls = append(rep.Controls, engine.ControlResult{Name: "corpus " + m, Expect: rule.ID + "/", Fired: false, Reported: []string{"the confirmed seeded change is not reported any more"}})
+	}
+	b, _ := json.Marshal(st)
+	_ = b
+	return st
+}
+
+// overlayFromPatch applies a unified diff to copies of the files it touches and returns them as an overlay.
+func overlayFromPatch(repo, patch, scratch, id string) (map[string][]byte, error) {
+	b, err := os.ReadFile(patch)
+	if err != nil {
+		return nil, err
+	}
+	dir := filepath.Join(scratch, "seed_"+id)
+	var files []string
+	for _, l := range strings.Split(string(b), "\n") {
+		if strings.HasPrefix(l, "+++ b/") {
+			files = append(files, strings.TrimPrefix(l, "+++ b/"))
+		}
+	}
+	for _, f := range files {
+		src, err := os.ReadFile(filepath.Join(repo, f))
+		if err != nil {
+			// new file
+			continue
+		}
+		dst := filepath.Join(dir, f)
+		if err := os.MkdirAll(filepath.Dir(dst), 0755); err != nil {
+			return nil, err
+		}
+		if err := os.WriteFile(dst, src, 0644); err != nil {
+			return nil, err
+		}
+	}
+	if err := os.MkdirAll(dir, 0755); err != nil {
+		return nil, err
+	}
+	cmd := exec.Command("git", "apply", "--unsafe-paths", patch)
+	cmd.Dir = dir
+	cmd.Env = append(os.Environ(), "GIT_CEILING_DIRECTORIES="+scratch, "GIT_DIR=/nonexistent")
+	if out, err := cmd.CombinedOutput(); err != nil {
+		return nil, fmt.Errorf("%v: %s", err, strings.TrimSpace(string(out)))
+	}
+	ov := map[string][]byte{}
+	for _, f := range files {
+		nb, err := os.ReadFile(filepath.Join(dir, f))
+		if err != nil {
+			return nil, err
+		}
+		ov[filepath.Join(repo, f)] = nb
+	}
+	return ov, nil
+}
+
+// astControl derives a control by rewriting the first AST node accepted by match in the package.
+func astControl(p *engine.Prog, pkg, name, expect string, match func(n ast.Node, src []byte, pos func(token.Pos) int) (int, int, string, bool)) Control {
+	pk := p.ByPath[engine.ModPath+"/"+pkg]
+	if pk == nil {
+		return Control{Name: name, Expect: expect, Skip: "package " + pkg + " not loaded"}
+	}
+	for i, file := range pk.Syntax {
+		fname := pk.CompiledGoFiles[i]
+		src, err := os.ReadFile(fname)
+		if err != nil {
+			continue
+		}
+		off := func(ps token.Pos) int { return p.Fset.Position(ps).Offset }
+		var out *Control
+		ast.Inspect(file, func(n ast.Node) bool {
+			if out != nil || n == nil {
+				return false
+			}
+			if s0, e0, repl, ok := match(n, src, off); ok {
+				var b []byte
+				b = append(b, src[:s0]...)
+				b = append(b, []byte(repl)...)
+				b = append(b, src[e0:]...)
+				out = &Control{Name: name, File: fname, Src: b, Expect: expect}
+				return false
+			}
+			return true
+		})
+		if out != nil {
+			return *out
+		}
+	}
+	return Control{Name: name, Expect: expect, Skip: "no matching construct in " + pkg + " (the control cannot be derived from the current tree)"}
 }
